@@ -3,12 +3,12 @@ CONSTANTS
   CKeys = {"k1", "k2", "k3"}
   Contents = {"a", "b", "c"}
   NsIds = {"n1", "n2"}
-  NsNames = {"x", "y"}
+  NsNames = {"x", "y", "", "<e>"}
   UKeys = {"u1", "u2"}
   UVals = {"p", "q"}
   SKeys = {"s1", "s2"}
   CTypes = {"", "json", "yaml"}
-  CDescs = {"", "d1"}
+  CDescs = {"", "d1", "<e>"}
   IKeys = {"s1:10.0.0.1:80", "s1:10.0.0.2:80", "s2:10.0.0.1:81"}
   IWeights = {2, 3}
   CaKeys = {"c1", "c2"}
